@@ -2,6 +2,7 @@
 
  R1 pairing   : every converter applied on the legacy->YANG side has its inverse on the YANG->legacy side of the
                 same document kind (both arms), incl. the global float<->string and null<->[null] passes.
+ R2 accumulate: in the converters a list initialised before a loop and read after it is grown inside the loop, never re-assigned.
  R2 siblings  : each convert_X / convert_back_X twin agrees on the key vocabulary and on the entries it quantifies
                 over (a twin that loops over all entries must not be answered by one that touches entry [0] only);
                 every key a convert_back_X writes into an entry is a key the loader of that entry consumes.
